@@ -78,6 +78,14 @@ CHECKS['C07'] = dict(
     note='trusted: TLC, Match.tla; target attributes (neighbours, heteroatoms, hybridisation, ring sizes) are derived by TLC from recorded bonds and the reported ring basis; completeness bounded to targets <= 60 atoms',
     technique='TLC enumeration of the declarative embedding set vs recorded searches; TLA+ model of lazy_product model checked',
     design='5/C07')
+CHECKS['C08'] = dict(
+    text='Parsing side: every bracket body (elements x primitives x pairs of primitives) and bond token generated from the documented subset is '
+         'parsed independently by Smarts.tla under TLC and must give the same query atom / bond as smarts(); unsupported SMARTS must raise '
+         'IncorrectSmarts. Matching side: one- and two-atom queries against corpus and special targets; TLC derives neighbour / heteroatom / '
+         'hybridisation / ring attributes itself and requires the mapping set to be exactly the matching atoms / bonds.',
+    note='trusted: TLC, Smarts.tla, Match.tla; ring sizes come from the reported ring basis (C06); repeating one primitive is outside the documented subset',
+    technique='TLA+ parser of the documented SMARTS subset + declarative atom/bond match predicates evaluated by TLC on recorded queries',
+    design='5/C08')
 PENDING = {}
 
 
